@@ -208,4 +208,4 @@ def rename_contracted(term, contracted, rng, pool, keep=()):
         picked = rng.sample(names, len(lst))
         for s, n in zip(lst, picked):
             sub[s] = get_symbols(n, spin)[0] if spin else get_symbols(n)[0]
-    return term.subs(sub, simultaneous=True), sub
+    return term.xreplace(sub), sub
